@@ -101,6 +101,18 @@ theorem take_preserves {s s' : St} {n : Nat} {bs : List Nat} (h : s.take n = .ok
     simp only [List.length_drop, true_and]
     exact ⟨by omega, trivial⟩
 
+theorem take_err {s s' : St} {n : Nat} {o : Outcome} (h : s.take n = .error (o, s')) :
+    s'.cfg = s.cfg ∧ s'.countAvail = s.countAvail ∧ s'.sizeAvail = s.sizeAvail ∧ s'.live = s.live ∧
+      (∀ site, o ≠ .panic site) := by
+  unfold St.take at h
+  by_cases hl : s.input.length < n
+  · simp only [hl, if_true] at h
+    cases h
+    refine ⟨rfl, rfl, rfl, rfl, ?_⟩
+    intro site
+    split <;> simp
+  · simp [hl] at h
+
 /-- delivering a frame for which (1, size) permits were taken out of a state satisfying the accounting restores it -/
 theorem deliver_inv (s : St) (d : Dispatched) (size : Nat)
     (h : s.countAvail + 1 + s.live.length = s.cfg.readFrameCount ∧
@@ -153,7 +165,9 @@ theorem step_inv (s : St) (hi : Inv s) : Inv (step s).1 := by
   split
   · -- header
     split
-    · exact hi
+    · rename_i o s' ht
+      obtain ⟨c1, c2, c3, c4, -⟩ := take_err ht
+      exact inv_of_eq hi c1 c2 c3 c4
     · rename_i bs s1 ht
       obtain ⟨c1, c2, c3, c4, -⟩ := take_preserves ht
       have hi1 : Inv s1 := inv_of_eq hi c1 c2 c3 c4
@@ -171,7 +185,9 @@ theorem step_inv (s : St) (hi : Inv s) : Inv (step s).1 := by
             omega
   · -- dataLen
     split
-    · exact hi
+    · rename_i o s' ht
+      obtain ⟨c1, c2, c3, c4, -⟩ := take_err ht
+      exact inv_of_eq hi c1 c2 c3 c4
     · rename_i bs s1 ht
       obtain ⟨c1, c2, c3, c4, -⟩ := take_preserves ht
       exact inv_of_eq hi c1 c2 c3 c4
@@ -184,7 +200,7 @@ theorem step_inv (s : St) (hi : Inv s) : Inv (step s).1 := by
       · split
         · exact hi
         · split
-          · exact hi
+          · exact inv_of_eq hi rfl rfl rfl rfl
           · rename_i bs s2 ht
             obtain ⟨c1, c2, c3, c4, -⟩ := take_preserves ht
             apply deliver_inv
@@ -197,11 +213,8 @@ theorem step_no_panic (s : St) : ∀ site, (step s).2 ≠ some (.panic site) := 
   unfold step
   split
   · split
-    · rename_i o ht
-      unfold St.take at ht
-      split at ht
-      · cases ht; split <;> simp
-      · cases ht
+    · rename_i o s' ht
+      simpa using (take_err ht).2.2.2.2 site
     · rename_i bs s1 ht
       simp only []
       split
@@ -213,11 +226,8 @@ theorem step_no_panic (s : St) : ∀ site, (step s).2 ≠ some (.panic site) := 
         · simp
         · split <;> simp
   · split
-    · rename_i o ht
-      unfold St.take at ht
-      split at ht
-      · cases ht; split <;> simp
-      · cases ht
+    · rename_i o s' ht
+      simpa using (take_err ht).2.2.2.2 site
     · simp
   · split
     · simp
@@ -227,11 +237,8 @@ theorem step_no_panic (s : St) : ∀ site, (step s).2 ≠ some (.panic site) := 
       · split
         · simp
         · split
-          · rename_i o ht
-            unfold St.take at ht
-            split at ht
-            · cases ht; split <;> simp
-            · cases ht
+          · rename_i o s' ht
+            simpa using (take_err ht).2.2.2.2 site
           · simp
 
 /-! ### termination: a potential that every non-final step decreases (for `read_frame_size > 0`) -/
@@ -248,7 +255,8 @@ theorem step_cfg (s : St) : (step s).1.cfg = s.cfg := by
   unfold step
   split
   · split
-    · rfl
+    · rename_i o s' ht
+      exact (take_err ht).1
     · rename_i bs s1 ht
       obtain ⟨c1, -⟩ := take_preserves ht
       simp only []
@@ -261,7 +269,8 @@ theorem step_cfg (s : St) : (step s).1.cfg = s.cfg := by
           · exact c1
           · rw [(deliver_cfg _ _ _).1]; exact c1
   · split
-    · rfl
+    · rename_i o s' ht
+      exact (take_err ht).1
     · rename_i bs s1 ht
       obtain ⟨c1, -⟩ := take_preserves ht
       exact c1
